@@ -318,11 +318,12 @@ Lemma undo_all_sets es : forall w pr mk,
   Loc 0 (k_flags w') (pend w') pr mk (k_next w') /\
   (forall y, Live (k_flags w') (pend w') y <-> Live (k_flags w) (pend w) y \/ In y (procs_of es)) /\
   (forall i, Dm (k_flags w') (pend w') pr i <-> Dm (k_flags w) (pend w) (procs_of es ++ pr) i \/ In i (map wm_id (marks_of es))) /\
-  Mk0 (k_flags w') (pend w') mk /\ (forall L, No5 (k_flags w) L -> No5 (k_flags w') L) /\ k_next w' = k_next w.
+  Mk0 (k_flags w') (pend w') mk /\ (forall L, No5 (k_flags w) L -> No5 (k_flags w') L) /\ k_next w' = k_next w /\
+  (forall y, ~ In (wm_id y) (map wm_id (marks_of es)) -> ~ In (wm_id y) (map wm_id (procs_of es)) -> fl (k_flags w') y = fl (k_flags w) y).
 Proof.
   induction es as [|e es IH]; intros w pr mk HL M0 N5; cbn [fold_left].
   - cbn [procs_of marks_of flat_map app map] in *. split; [exact HL|]. split; [intros y; cbn [In]; tauto|]. split; [intros i; cbn [In]; tauto|].
-    split; [exact M0|split; [intros L0 H; exact H|reflexivity]].
+    split; [exact M0|split; [intros L0 H; exact H|split; [reflexivity|intros y _ _; reflexivity]]].
   - destruct e as [o|y0].
     + change (procs_of (ESent o :: es)) with (procs_of es) in *.
       change (marks_of (ESent o :: es) ++ mk) with (o :: (marks_of es ++ mk)) in *.
@@ -331,14 +332,16 @@ Proof.
                 Loc 0 (k_flags w1) (pend w1) (procs_of es ++ pr) (marks_of es ++ mk) (k_next w1) /\
                 (forall y, Live (k_flags w1) (pend w1) y <-> Live (k_flags w) (pend w) y) /\
                 (forall i, Dm (k_flags w1) (pend w1) (procs_of es ++ pr) i <-> Dm (k_flags w) (pend w) (procs_of es ++ pr) i \/ i = wm_id o) /\
-                Mk0 (k_flags w1) (pend w1) (marks_of es ++ mk) /\ (forall L, No5 (k_flags w) L -> No5 (k_flags w1) L) /\ k_next w1 = k_next w).
+                Mk0 (k_flags w1) (pend w1) (marks_of es ++ mk) /\ (forall L, No5 (k_flags w) L -> No5 (k_flags w1) L) /\ k_next w1 = k_next w /\
+                (forall y, wm_id y <> wm_id o -> fl (k_flags w1) y = fl (k_flags w) y)).
       { destruct (Loc_unmark _ _ _ _ _ _ _ HL ltac:(lia)) as [[Hf HL']|[Hf HL']]; cbn zeta; unfold undo_entry, flag_add; fold (fl (k_flags w) o); rewrite Hf.
-        - destruct (unmark0_sets _ _ _ _ _ o HL M0 Hf) as (S1 & S2 & S3 & S4). cbn. split; [exact HL'|]. split; [exact S1|]. split; [exact S2|]. split; [exact S3|]. split; [exact S4|reflexivity].
-        - destruct (unmark2_sets _ _ _ _ _ o HL M0 Hf) as (S1 & S2 & S3 & S4). cbn. split; [exact HL'|]. split; [exact S1|]. split; [exact S2|]. split; [exact S3|]. split; [exact S4|reflexivity]. }
-      cbn zeta in Hstep. destruct Hstep as (H1 & H2 & H3 & H4 & H5 & H6).
-      destruct (IH (undo_entry w (ESent o)) pr mk H1 H4 (H5 _ N5)) as (I1 & I2 & I3 & I4 & I5 & I6). cbn zeta in *.
-      split; [exact I1|]. split; [intros y; rewrite I2, H2; tauto|]. split; [|split; [exact I4|split; [intros L0 H; apply I5; apply H5; exact H|rewrite I6; exact H6]]].
-      intros i. rewrite I3, H3. cbn [In]. split; [intros [[H|H]|H]; auto|intros [H|[H|H]]; auto].
+        - destruct (unmark0_sets _ _ _ _ _ o HL M0 Hf) as (S1 & S2 & S3 & S4). cbn. split; [exact HL'|]. split; [exact S1|]. split; [exact S2|]. split; [exact S3|]. split; [exact S4|split; [reflexivity|intros y Hy; apply fl_set_other; exact Hy]].
+        - destruct (unmark2_sets _ _ _ _ _ o HL M0 Hf) as (S1 & S2 & S3 & S4). cbn. split; [exact HL'|]. split; [exact S1|]. split; [exact S2|]. split; [exact S3|]. split; [exact S4|split; [reflexivity|intros y Hy; apply fl_set_other; exact Hy]]. }
+      cbn zeta in Hstep. destruct Hstep as (H1 & H2 & H3 & H4 & H5 & H6 & H7).
+      destruct (IH (undo_entry w (ESent o)) pr mk H1 H4 (H5 _ N5)) as (I1 & I2 & I3 & I4 & I5 & I6 & I7). cbn zeta in *.
+      split; [exact I1|]. split; [intros y; rewrite I2, H2; tauto|]. split; [|split; [exact I4|split; [intros L0 H; apply I5; apply H5; exact H|split; [rewrite I6; exact H6|]]]].
+      * intros i. rewrite I3, H3. cbn [In]. split; [intros [[H|H]|H]; auto|intros [H|[H|H]]; auto].
+      * intros y Hm Hp. cbn [In] in Hm. rewrite I7 by tauto. apply H7. intro E. apply Hm. left. symmetry. exact E.
     + change (marks_of (EProc y0 :: es)) with (marks_of es) in *.
       change (procs_of (EProc y0 :: es) ++ pr) with (y0 :: (procs_of es ++ pr)) in *.
       change (procs_of (EProc y0 :: es)) with (y0 :: procs_of es) in *.
@@ -346,16 +349,18 @@ Proof.
                 Loc 0 (k_flags w1) (pend w1) (procs_of es ++ pr) (marks_of es ++ mk) (k_next w1) /\
                 (forall y, Live (k_flags w1) (pend w1) y <-> Live (k_flags w) (pend w) y \/ y = y0) /\
                 (forall i, Dm (k_flags w1) (pend w1) (procs_of es ++ pr) i <-> Dm (k_flags w) (pend w) (y0 :: (procs_of es ++ pr)) i) /\
-                Mk0 (k_flags w1) (pend w1) (marks_of es ++ mk) /\ (forall L, No5 (k_flags w) L -> No5 (k_flags w1) L) /\ k_next w1 = k_next w).
+                Mk0 (k_flags w1) (pend w1) (marks_of es ++ mk) /\ (forall L, No5 (k_flags w) L -> No5 (k_flags w1) L) /\ k_next w1 = k_next w /\
+                (forall y, wm_id y <> wm_id y0 -> fl (k_flags w1) y = fl (k_flags w) y)).
       { destruct (Loc_unproc _ _ _ _ _ _ _ HL) as [[Hf HL']|[[Hf HL']|[Hf HL']]]; cbn zeta; unfold undo_entry, flag_sub; fold (fl (k_flags w) y0); rewrite Hf.
-        - destruct (unproc2_sets _ _ _ _ _ y0 HL M0 Hf) as (S1 & S2 & S3 & S4). cbn. split; [exact HL'|]. split; [exact S1|]. split; [exact S2|]. split; [exact S3|]. split; [exact S4|reflexivity].
-        - destruct (unproc3_sets _ _ _ _ _ y0 HL M0 Hf) as (S1 & S2 & S3 & S4). cbn. split; [exact HL'|]. split; [exact S1|]. split; [exact S2|]. split; [exact S3|]. split; [exact S4|reflexivity].
+        - destruct (unproc2_sets _ _ _ _ _ y0 HL M0 Hf) as (S1 & S2 & S3 & S4). cbn. split; [exact HL'|]. split; [exact S1|]. split; [exact S2|]. split; [exact S3|]. split; [exact S4|split; [reflexivity|intros y Hy; apply fl_set_other; exact Hy]].
+        - destruct (unproc3_sets _ _ _ _ _ y0 HL M0 Hf) as (S1 & S2 & S3 & S4). cbn. split; [exact HL'|]. split; [exact S1|]. split; [exact S2|]. split; [exact S3|]. split; [exact S4|split; [reflexivity|intros y Hy; apply fl_set_other; exact Hy]].
         - exfalso. apply (N5 y0 (or_introl eq_refl)). exact Hf. }
-      cbn zeta in Hstep. destruct Hstep as (H1 & H2 & H3 & H4 & H5 & H6).
+      cbn zeta in Hstep. destruct Hstep as (H1 & H2 & H3 & H4 & H5 & H6 & H7).
       assert (N5' : No5 (k_flags (undo_entry w (EProc y0))) (procs_of es)) by (apply H5; intros z Hz; apply N5; right; exact Hz).
-      destruct (IH (undo_entry w (EProc y0)) pr mk H1 H4 N5') as (I1 & I2 & I3 & I4 & I5 & I6). cbn zeta in *.
+      destruct (IH (undo_entry w (EProc y0)) pr mk H1 H4 N5') as (I1 & I2 & I3 & I4 & I5 & I6 & I7). cbn zeta in *.
       split; [exact I1|]. split; [intros y; rewrite I2, H2; cbn [In]; split; [intros [[H|H]|H]; auto|intros [H|[H|H]]; auto]|].
-      split; [intros i; rewrite I3, H3; reflexivity|]. split; [exact I4|split; [intros L0 H; apply I5; apply H5; exact H|rewrite I6; exact H6]].
+      split; [intros i; rewrite I3, H3; reflexivity|]. split; [exact I4|split; [intros L0 H; apply I5; apply H5; exact H|split; [rewrite I6; exact H6|]]].
+      intros y Hm Hp. cbn [map In] in Hp. rewrite I7 by tauto. apply H7. intro E. apply Hp. left. symmetry. exact E.
 Qed.
 
 (* ---------- Part 3: the handler, the new messages ---------- *)
@@ -764,7 +769,7 @@ Proof.
   { intros o Ho. apply M0. unfold allmarks. apply (Permutation_in _ (Permutation_sym (split_lp (fun y => marks_of (x_hist y)) (k_lps w3) l Hl))).
     fold (get_lp w3 l). fold x. rewrite Eh, flat_app, marks_app. fold restM. rewrite !in_app_iff in *. tauto. }
   assert (N51 : No5 (k_flags w3) (procs_of (flat gu))) by (rewrite procs_flat; exact N5).
-  destruct (undo_all_sets (flat gu) w3 _ _ HL1 M01 N51) as (U1 & U2 & U3 & U4 & U5 & U6). cbn zeta in *.
+  destruct (undo_all_sets (flat gu) w3 _ _ HL1 M01 N51) as (U1 & U2 & U3 & U4 & U5 & U6 & U7). cbn zeta in *.
   set (w1 := fold_left undo_entry (flat gu) w3) in *.
   assert (E1 : k_lps w1 = k_lps w3) by apply undo_all_lps.
   destruct (undo_all_frame (flat gu) w3) as (B1 & _ & _ & B4 & _ & _). cbn zeta in B1, B4. fold w1 in B1, B4.
@@ -795,6 +800,100 @@ Proof.
         apply (Permutation_in _ (Permutation_sym (split_lp (fun z => procs_of (x_hist z)) (k_lps w3) l Hl))); fold (get_lp w3 l); fold x; fold restP;
         rewrite Eh, flat_app, procs_app, !in_app_iff; tauto.
   - intros o Ho. apply U4. apply (Permutation_in _ PM). exact Ho.
+Qed.
+
+Lemma fold_left_app_undo a b w : fold_left undo_entry (a ++ b) w = fold_left undo_entry b (fold_left undo_entry a w).
+Proof. apply fold_left_app. Qed.
+
+(* the rollback started by the cancellation notice of a processed message: its markers, its annihilation, then the later groups *)
+Lemma cancel_sets w3 l gk0 mm m g2 :
+  all_ok2 p w3 -> l < length (k_lps w3) -> x_hist (get_lp w3 l) = flat (gk0 ++ (mm, m) :: g2) -> fst (base (get_lp w3 l)) <= length (flat gk0) ->
+  Loc 0 (k_flags w3) (pend w3) (allprocs (k_lps w3)) (allmarks (k_lps w3)) (k_next w3) ->
+  Mk0 (k_flags w3) (pend w3) (allmarks (k_lps w3)) -> fl (k_flags w3) m = 5%N -> No5 (k_flags w3) (map snd g2) ->
+  let w4 := do_rollback p w3 l (length (flat gk0)) in
+  x_hist (get_lp w4 l) = flat gk0 /\ (forall i, i <> l -> get_lp w4 i = get_lp w3 i) /\ base (get_lp w4 l) = base (get_lp w3 l) /\
+  x_epoch (get_lp w4 l) = x_epoch (get_lp w3 l) /\ length (k_lps w4) = length (k_lps w3) /\ k_next w4 = k_next w3 /\ k_gvt w4 = k_gvt w3 /\ k_epoch w4 = k_epoch w3 /\
+  (forall y, Live (k_flags w4) (pend w4) y <-> Live (k_flags w3) (pend w3) y \/ In y (map snd g2)) /\
+  (forall i, Dm (k_flags w4) (pend w4) (allprocs (k_lps w4)) i <->
+             ((Dm (k_flags w3) (pend w3) (allprocs (k_lps w3)) i \/ In i (map wm_id mm)) /\ i <> wm_id m) \/ In i (map wm_id (flat_map fst g2))) /\
+  Mk0 (k_flags w4) (pend w4) (allmarks (k_lps w4)) /\ (forall L, No5 (k_flags w3) L -> No5 (k_flags w4) L).
+Proof.
+  intros Hok Hl Eh Hb HL M0 Hf5 N5. set (x := get_lp w3 l) in *. set (past := length (flat gk0)). set (gu := (mm, m) :: g2) in *.
+  assert (Ef : firstn past (x_hist x) = flat gk0) by (unfold past; rewrite Eh, flat_app, firstn_app, firstn_all, Nat.sub_diag, firstn_O, app_nil_r; reflexivity).
+  assert (Es : skipn past (x_hist x) = flat gu) by (unfold past; rewrite Eh, flat_app, skipn_app, skipn_all, Nat.sub_diag; reflexivity).
+  destruct (get_ok2 p w3 l Hok Hl) as [Hlok _]. fold x in Hlok.
+  pose proof (drop_newer_some p H_time x past Hlok Hb) as Hne.
+  destruct (drop_newer (x_logs x) past) as [|[ref snap] older] eqn:Hd; [congruence|].
+  cbn zeta. rewrite (do_rollback_unfold w3 l past ref snap older Hd). fold x. rewrite Ef, Es.
+  set (restP := rest (fun y => procs_of (x_hist y)) (k_lps w3) l). set (restM := rest (fun y => marks_of (x_hist y)) (k_lps w3) l).
+  set (prR := procs_of (flat gk0) ++ restP). set (mkR := marks_of (flat gk0) ++ restM).
+  assert (PP0 : Permutation (allprocs (k_lps w3)) (procs_of (flat gu) ++ prR)).
+  { unfold allprocs. eapply perm_trans; [apply (split_lp (fun y => procs_of (x_hist y)) (k_lps w3) l Hl)|].
+    fold (get_lp w3 l). fold x. rewrite Eh, flat_app, procs_app. apply perm_pull2'. }
+  assert (PM0 : Permutation (allmarks (k_lps w3)) (marks_of (flat gu) ++ mkR)).
+  { unfold allmarks. eapply perm_trans; [apply (split_lp (fun y => marks_of (x_hist y)) (k_lps w3) l Hl)|].
+    fold (get_lp w3 l). fold x. rewrite Eh, flat_app, marks_app. apply perm_pull2'. }
+  assert (Epg : procs_of (flat gu) = m :: procs_of (flat g2)) by (unfold gu; rewrite !procs_flat; reflexivity).
+  assert (Emg : marks_of (flat gu) = mm ++ marks_of (flat g2)) by (unfold gu; rewrite !marks_flat; reflexivity).
+  assert (Efg : flat gu = map ESent mm ++ EProc m :: flat g2) by (unfold gu; apply flat_cons).
+  (* part A: the markers of the cancelled message *)
+  assert (HLA0 : Loc 0 (k_flags w3) (pend w3) (procs_of (map ESent mm) ++ (m :: procs_of (flat g2) ++ prR)) (marks_of (map ESent mm) ++ (marks_of (flat g2) ++ mkR)) (k_next w3)).
+  { rewrite procs_map_sent, marks_map_sent. cbn [app]. eapply Loc_perm; [exact HL|apply Permutation_refl| |].
+    - rewrite Epg in PP0. exact PP0.
+    - rewrite Emg, <- app_assoc in PM0. exact PM0. }
+  assert (M0A0 : Mk0 (k_flags w3) (pend w3) (marks_of (map ESent mm) ++ (marks_of (flat g2) ++ mkR))).
+  { rewrite marks_map_sent. intros o Ho. apply M0. apply (Permutation_in _ (Permutation_sym PM0)). rewrite Emg, <- app_assoc. exact Ho. }
+  destruct (undo_all_sets (map ESent mm) w3 _ _ HLA0 M0A0 ltac:(rewrite procs_map_sent; intros y [])) as (A1 & A2 & A3 & A4 & A5 & A6 & A7). cbn zeta in *.
+  set (wA := fold_left undo_entry (map ESent mm) w3) in *.
+  rewrite procs_map_sent, marks_map_sent in *. cbn [app] in A3.
+  assert (HfA : fl (k_flags wA) m = 5%N).
+  { rewrite A7; [exact Hf5| |intros []]. intro Hin. apply in_map_iff in Hin. destruct Hin as (o & Eo & Ho).
+    assert (o = m). { apply (l_body _ _ _ _ _ _ HL o m); [rewrite !in_app_iff; right; right; apply (Permutation_in _ (Permutation_sym PM0)); rewrite Emg; rewrite !in_app_iff; tauto|
+                       rewrite !in_app_iff; right; left; apply (Permutation_in _ (Permutation_sym PP0)); rewrite Epg; left; reflexivity|exact Eo]. }
+    subst o. destruct (l_mk _ _ _ _ _ _ HL m ltac:(apply (Permutation_in _ (Permutation_sym PM0)); rewrite Emg; rewrite !in_app_iff; tauto)) as [H|[H _]]; rewrite Hf5 in H; discriminate. }
+  (* part B: the annihilation *)
+  assert (HstepB : let wB := undo_entry wA (EProc m) in
+            Loc 0 (k_flags wB) (pend wB) (procs_of (flat g2) ++ prR) (marks_of (flat g2) ++ mkR) (k_next wB) /\
+            (forall y, Live (k_flags wB) (pend wB) y <-> Live (k_flags wA) (pend wA) y) /\
+            (forall i, Dm (k_flags wB) (pend wB) (procs_of (flat g2) ++ prR) i <-> Dm (k_flags wA) (pend wA) (m :: procs_of (flat g2) ++ prR) i /\ i <> wm_id m) /\
+            Mk0 (k_flags wB) (pend wB) (marks_of (flat g2) ++ mkR) /\ (forall L, No5 (k_flags wA) L -> No5 (k_flags wB) L) /\ k_next wB = k_next wA /\
+            k_lps wB = k_lps wA /\ k_gvt wB = k_gvt wA /\ k_epoch wB = k_epoch wA).
+  { destruct (Loc_unproc _ _ _ _ _ _ _ A1) as [[Hf _]|[[Hf _]|[Hf HL']]]; [rewrite HfA in Hf; discriminate|rewrite HfA in Hf; discriminate|].
+    cbn zeta. unfold undo_entry, flag_sub. fold (fl (k_flags wA) m). rewrite Hf.
+    destruct (unproc5_sets _ _ _ _ _ m A1 A4 Hf) as (S1 & S2 & S3 & S4). cbn. repeat (split; [assumption|]). repeat split; reflexivity. }
+  cbn zeta in HstepB. destruct HstepB as (B1 & B2 & B3 & B4 & B5 & B6 & B7 & B8 & B9). set (wB := undo_entry wA (EProc m)) in *.
+  (* part C: the later groups *)
+  assert (N5C : No5 (k_flags wB) (procs_of (flat g2))) by (apply B5; apply A5; rewrite procs_flat; exact N5).
+  destruct (undo_all_sets (flat g2) wB _ _ B1 B4 N5C) as (C1 & C2 & C3 & C4 & C5 & C6 & C7). cbn zeta in *.
+  assert (Efold : fold_left undo_entry (flat gu) w3 = fold_left undo_entry (flat g2) wB).
+  { rewrite Efg. change (map ESent mm ++ EProc m :: flat g2) with (map ESent mm ++ [EProc m] ++ flat g2). rewrite !fold_left_app_undo. reflexivity. }
+  rewrite Efold. set (wC := fold_left undo_entry (flat g2) wB) in *.
+  assert (E1 : k_lps wC = k_lps w3) by (unfold wC; rewrite undo_all_lps, B7; unfold wA; apply undo_all_lps).
+  destruct (undo_all_frame (flat g2) wB) as (F1 & _ & _ & F4 & _ & _). cbn zeta in F1, F4. fold wC in F1, F4.
+  destruct (undo_all_frame (map ESent mm) w3) as (G1 & _ & _ & G4 & _ & _). cbn zeta in G1, G4. fold wA in G1, G4.
+  assert (Hl1 : l < length (k_lps wC)) by (rewrite E1; exact Hl).
+  set (x' := mkLpx (flat gk0) (x_bound x) (replay p snap (sub (flat gk0) ref past)) ((ref, snap) :: older) (x_rem x) (x_epoch x)).
+  assert (PP : Permutation (allprocs (k_lps (put_lp wC l x'))) prR).
+  { unfold allprocs. cbn [put_lp set_lps k_lps]. rewrite E1. exact (split_lp_set (fun y => procs_of (x_hist y)) (k_lps w3) l x' Hl). }
+  assert (PM : Permutation (allmarks (k_lps (put_lp wC l x'))) mkR).
+  { unfold allmarks. cbn [put_lp set_lps k_lps]. rewrite E1. exact (split_lp_set (fun y => marks_of (x_hist y)) (k_lps w3) l x' Hl). }
+  split; [rewrite (get_lp_set wC l x' Hl1); reflexivity|]. split; [intros i Hi; rewrite (get_put_other wC l x' i Hi); unfold get_lp; rewrite E1; reflexivity|].
+  split.
+  { rewrite (get_lp_set wC l x' Hl1). unfold base. cbn [x_logs x'].
+    destruct Hlok as (newer & r0 & s0' & El & Hs & _). pose proof (drop_newer_spec (x_logs x) past Hs) as Hsp. rewrite Hd in Hsp. destruct Hsp as (pre & E & _ & _).
+    rewrite E. symmetry. apply last_suffix. discriminate. }
+  split; [rewrite (get_lp_set wC l x' Hl1); reflexivity|].
+  split; [cbn [put_lp set_lps k_lps]; rewrite set_nth_length, E1; reflexivity|].
+  change (k_next (put_lp wC l x')) with (k_next wC). change (k_gvt (put_lp wC l x')) with (k_gvt wC). change (k_epoch (put_lp wC l x')) with (k_epoch wC).
+  split; [rewrite <- A6, <- B6; exact C6|]. split; [rewrite F1, B8; exact G1|]. split; [rewrite F4, B9; exact G4|].
+  change (pend (put_lp wC l x')) with (pend wC). change (k_flags (put_lp wC l x')) with (k_flags wC).
+  split; [intros y; rewrite C2, B2, A2, procs_flat; cbn [In]; tauto|]. split; [|split].
+  - intros i. rewrite (Dm_ext _ _ (allprocs (k_lps (put_lp wC l x'))) prR i) by (intros y; split; intros H; [apply (Permutation_in _ PP H)|apply (Permutation_in _ (Permutation_sym PP) H)]).
+    rewrite C3, B3, A3, marks_flat.
+    rewrite (Dm_ext _ _ (allprocs (k_lps w3)) (m :: procs_of (flat g2) ++ prR) i); [reflexivity|].
+    intros y. change (m :: procs_of (flat g2) ++ prR) with ((m :: procs_of (flat g2)) ++ prR). rewrite <- Epg. split; intros H; [apply (Permutation_in _ PP0 H)|apply (Permutation_in _ (Permutation_sym PP0) H)].
+  - intros o Ho. apply C4. apply (Permutation_in _ PM). exact Ho.
+  - intros L0 H. apply C5. apply B5. apply A5. exact H.
 Qed.
 
 Lemma in_allprocs_iff w y : In y (allprocs (k_lps w)) <-> exists i, i < length (k_lps w) /\ In (EProc y) (x_hist (get_lp w i)).
@@ -1071,5 +1170,158 @@ Proof.
         unfold Abs.ids_of. apply in_map_iff. exists (amsg o). split; [reflexivity|]. apply in_flat_map. exists (ent g). split; [apply in_map; exact Hgg|cbn [ent Abs.eouts]; apply in_map; exact Ho].
   - rewrite map_length. unfold news. rewrite W6, psucc_n_nat.
     assert (E : length (mknews (k_next w4) outs) = length outs) by (rewrite <- (map_length wm_ev), mknews_ev; reflexivity). rewrite E. reflexivity.
+Qed.
+
+(* ---------- the cancellation notice of a processed message: abstract step s_cancel ---------- *)
+Lemma sim_cancel w a w1 m : R w a -> Permutation (pend w) (m :: pend w1) ->
+  k_flags w1 = k_flags w -> k_next w1 = k_next w -> k_gvt w1 = k_gvt w -> k_lps w1 = k_lps w -> k_epoch w1 = k_epoch w ->
+  fl (k_flags w) m = 3%N ->
+  let l := N.to_nat (e_dest (wm_ev m)) in
+  let w3 := set_flags w1 (flag_set (k_flags w1) (wm_id m) 5) in
+  forall past, anti_index m (x_hist (get_lp w3 l)) = Some past ->
+  let w4 := do_rollback p w3 l past in
+  let w' := put_lp w4 l (fix_bound (get_lp w4 l)) in
+  full p w' -> exists a', astep a a' /\ R w' a'.
+Proof.
+  intros Hr Hperm Ef En Eg El Ee Hfm l w3 past Ea w4 w' F'.
+  pose proof Hr as [F Hlen Hg [He0 Hel] M0 N5 Hre Hh Hp Ha Hn].
+  pose proof (once_loc w F Hg) as L.
+  assert (HL1 : Loc 0 (k_flags w) (m :: pend w1) (allprocs (k_lps w)) (allmarks (k_lps w)) (k_next w)) by (eapply Loc_perm; [exact L|exact Hperm|apply Permutation_refl|apply Permutation_refl]).
+  assert (Hmin : In m (pend w)) by (apply (Permutation_in _ (Permutation_sym Hperm)); left; reflexivity).
+  destruct (f_extra p w F) as [Hxp Hxl]. destruct (Hxp m Hmin) as [Hty Hdl]. fold l in Hdl. rewrite Hlen in Hdl.
+  destruct (nodup_cons_id m (pend w1) (l_nd_pd _ _ _ _ _ _ HL1)) as [Hnm1 _].
+  destruct (Loc_extract3 _ _ _ _ _ _ _ HL1 Hfm) as [Hmpr HL3]. rewrite <- Ef in HL3.
+  assert (Hnmk : ~ In m (allmarks (k_lps w))).
+  { intro H. destruct (l_mk _ _ _ _ _ _ L m H) as [H1|[H1 _]]; rewrite Hfm in H1; discriminate. }
+  assert (Hid : forall y, In y (pend w ++ allprocs (k_lps w) ++ allmarks (k_lps w)) -> wm_id y = wm_id m -> y = m).
+  { intros y Hy E. apply (same_id w y m F Hg Hy); [apply in_or_app; left; exact Hmin|exact E]. }
+  assert (Hl3 : l < length (k_lps w3)) by (change (k_lps w3) with (k_lps w1); rewrite El, Hlen; exact Hdl).
+  set (f3 := flag_set (k_flags w1) (wm_id m) 5) in *.
+  assert (Hfl : forall y, wm_id y <> wm_id m -> fl f3 y = fl (k_flags w) y) by (intros y Hy; unfold f3; rewrite Ef; apply fl_set_other; exact Hy).
+  assert (Hf3m : fl f3 m = 5%N) by (unfold f3; apply fl_set_same).
+  assert (Ok3 : all_ok2 p w3) by (unfold all_ok2; change (k_lps w3) with (k_lps w1); rewrite El; exact (f_ok p w F)).
+  destruct (Hh l Hdl) as (ms & im & gs & Ehist & Einit & Ebase & Eah).
+  set (x := get_lp w3 l) in *.
+  assert (Ex : x = get_lp w l) by (unfold x, get_lp; change (k_lps w3) with (k_lps w1); rewrite El; reflexivity).
+  rewrite <- Ex in Ehist, Ebase.
+  destruct (get_ok2 p w3 l Ok3 Hl3) as [Hlok Hlwf]. fold x in Hlok, Hlwf.
+  assert (Hbase : lp_base x) by (rewrite Ex; apply (Hxl l ltac:(rewrite Hlen; exact Hdl))).
+  (* where the cancelled message sits *)
+  pose proof (anti_ge_base p ck m x past Hlok Hbase Hty Ea) as Hbp. rewrite Ebase in Hbp. cbn [fst] in Hbp.
+  destruct (anti_index_bnd m _ _ Ea) as [Hbnd Hple]. destruct (anti_index_spec ck m _ _ Ea) as (j & Hkj & Hnj & Hsent).
+  rewrite Ehist in Hbnd, Hple. destruct (flat_cons_cut ms im gs past Hbnd Hple Hbp) as (gk & gu & Egs & Ek).
+  assert (Hgu : exists mm g2, gu = (mm, m) :: g2).
+  { rewrite Ehist, Egs in Hnj, Hsent. change ((ms, im) :: gk ++ gu) with (((ms, im) :: gk) ++ gu) in Hnj, Hsent. rewrite flat_app in Hnj, Hsent.
+    destruct gu as [|[mm m'] g2].
+    - exfalso. change (flat []) with (@nil Worker.entry) in Hnj. rewrite app_nil_r in Hnj. assert (j < past) by (rewrite Ek; apply nth_error_Some; rewrite Hnj; discriminate). lia.
+    - exists mm, g2. f_equal. f_equal. rewrite (flat_cons mm m' g2) in Hnj, Hsent.
+      rewrite nth_error_app2 in Hnj by lia. rewrite <- Ek in Hnj.
+      destruct (Nat.lt_trichotomy (j - past) (length mm)) as [Hlt|[Heq|Hgt]].
+      + exfalso. rewrite nth_error_app1 in Hnj by (rewrite map_length; exact Hlt). apply nth_error_In in Hnj. apply in_map_iff in Hnj. destruct Hnj as (z & Hz & _). discriminate.
+      + rewrite nth_error_app2 in Hnj by (rewrite map_length; lia). rewrite map_length, Heq, Nat.sub_diag in Hnj. cbn in Hnj. injection Hnj as ->. reflexivity.
+      + exfalso. destruct (Hsent (past + length mm) ltac:(lia)) as (z & Hz). rewrite nth_error_app2 in Hz by lia. rewrite <- Ek in Hz.
+        replace (past + length mm - past) with (length mm) in Hz by lia. rewrite nth_error_app2 in Hz by (rewrite map_length; lia).
+        rewrite map_length, Nat.sub_diag in Hz. cbn in Hz. discriminate. }
+  destruct Hgu as (mm & g2 & ->). subst gs.
+  assert (Hpin : forall g, In g (gk ++ (mm, m) :: g2) -> In (snd g) (allprocs (k_lps w))).
+  { intros g Hgg. apply in_allprocs_iff. exists l. split; [rewrite Hlen; exact Hdl|]. rewrite <- Ex, Ehist. apply in_procs. rewrite procs_flat. cbn [map]. right. apply in_map. exact Hgg. }
+  assert (HnotIn : forall g, In g (gk ++ g2) -> wm_id (snd g) <> wm_id m).
+  { pose proof (l_nd_pr _ _ _ _ _ _ L) as Hnd. unfold allprocs in Hnd.
+    apply (Permutation_NoDup (Permutation_map wm_id (split_lp (fun y => procs_of (x_hist y)) (k_lps w) l ltac:(rewrite Hlen; exact Hdl)))) in Hnd.
+    fold (get_lp w l) in Hnd. rewrite <- Ex, Ehist, map_app, procs_flat in Hnd. apply Abs.nodup_app_l in Hnd. cbn [map] in Hnd. inversion Hnd as [|? ? _ Hnd']; subst.
+    rewrite !map_app in Hnd'. cbn [map snd] in Hnd'. intros g Hgg E. apply in_app_or in Hgg. destruct Hgg as [Hgg|Hgg].
+    - apply (Abs.nodup_app_disj _ _ (wm_id m) Hnd'); [rewrite <- E; apply in_map; apply in_map; exact Hgg|left; reflexivity].
+    - apply Abs.nodup_app_r in Hnd'. inversion Hnd' as [|? ? Hn' _]; subst. apply Hn'. rewrite <- E. apply in_map. apply in_map. exact Hgg. }
+  (* the state before the undo *)
+  assert (M03 : Mk0 f3 (pend w3) (allmarks (k_lps w3))).
+  { change (k_lps w3) with (k_lps w1). change (pend w3) with (pend w1). rewrite El. intros o Ho Hfo. destruct (Pos.eq_dec (wm_id o) (wm_id m)) as [E|E].
+    - exfalso. apply Hnmk. rewrite <- (Hid o ltac:(rewrite !in_app_iff; tauto) E). exact Ho.
+    - rewrite (Hfl o E) in Hfo. pose proof (M0 o Ho Hfo) as Hop. apply (Permutation_in _ Hperm) in Hop. destruct Hop as [<-|Hop]; [congruence|exact Hop]. }
+  assert (N53 : forall y, In y (allprocs (k_lps w)) -> wm_id y <> wm_id m -> fl f3 y <> 5%N) by (intros y Hy Hne; rewrite (Hfl y Hne); apply N5; exact Hy).
+  assert (HL3' : Loc 0 (k_flags w3) (pend w3) (allprocs (k_lps w3)) (allmarks (k_lps w3)) (k_next w3)).
+  { change (k_flags w3) with f3. change (pend w3) with (pend w1). change (k_lps w3) with (k_lps w1). change (k_next w3) with (k_next w1). rewrite El, En. exact HL3. }
+  change ((ms, im) :: gk ++ (mm, m) :: g2) with (((ms, im) :: gk) ++ (mm, m) :: g2) in Ehist.
+  destruct (cancel_sets w3 l ((ms, im) :: gk) mm m g2 Ok3 Hl3 Ehist) as (Q1 & Q2 & Q3 & Q4 & Q5 & Q6 & Q7 & Q8 & Q10 & Q11 & Q12 & Q13).
+  { fold x. rewrite Ebase. cbn [fst]. rewrite flat_cons, app_length, map_length. cbn. lia. }
+  { exact HL3'. } { exact M03. } { exact Hf3m. }
+  { intros y Hy. apply in_map_iff in Hy. destruct Hy as (g & <- & Hgg). apply N53; [apply Hpin; apply in_or_app; right; right; exact Hgg|apply HnotIn; apply in_or_app; right; exact Hgg]. }
+  cbn zeta in *. rewrite <- Ek in Q1, Q2, Q3, Q4, Q5, Q6, Q7, Q8, Q10, Q11, Q12, Q13. fold w4 in Q1, Q2, Q3, Q4, Q5, Q6, Q7, Q8, Q10, Q11, Q12, Q13.
+  assert (Hl4 : l < length (k_lps w4)) by (rewrite Q5; exact Hl3).
+  destruct (put_same_hist w4 l (fix_bound (get_lp w4 l)) Hl4 (fix_bound_hist _)) as [Epp Emm].
+  (* the abstract step *)
+  pose proof (reach_Inv a Hre) as I.
+  assert (Eah' : Abs.hist cont a l = map ent gk ++ ent (mm, m) :: map ent g2) by (rewrite Eah, map_app; reflexivity).
+  assert (Hdm : Abs.doomedb cont a (Abs.em cont (ent (mm, m))) = true) by (cbn [ent Abs.em snd]; apply (doomed_iff w a m Hr Hmpr); exact Hfm).
+  pose proof (Abs.s_cancel cont cltb tltb lpstate n (AppAbs.s0 p) (ahandle p) a l (map ent gk) (ent (mm, m)) (map ent g2) Hdl Eah' Hdm) as Hstep.
+  eexists. split; [exact Hstep|].
+  assert (Hget : forall i, i <> l -> get_lp w' i = get_lp w i).
+  { intros i Hi. unfold w'. rewrite (get_put_other w4 l _ i Hi), (Q2 i Hi). unfold get_lp. change (k_lps w3) with (k_lps w1). rewrite El. reflexivity. }
+  assert (HLive3 : forall y, Live f3 (pend w3) y <-> Live (k_flags w) (pend w) y).
+  { intros y. unfold Live. change (pend w3) with (pend w1). split.
+    - intros [Hy Hfy]. assert (Hyw : In y (pend w)) by (apply (Permutation_in _ (Permutation_sym Hperm)); right; exact Hy).
+      assert (Hyall : In y (pend w ++ allprocs (k_lps w) ++ allmarks (k_lps w))) by (apply in_or_app; left; exact Hyw).
+      assert (Hne : wm_id y <> wm_id m) by (intro E0; apply Hnm1; rewrite <- (Hid y Hyall E0); exact Hy).
+      rewrite (Hfl y Hne) in Hfy. split; assumption.
+    - intros [Hy Hfy]. assert (Hne : wm_id y <> wm_id m) by (intro E0; unfold fl in Hfy, Hfm; rewrite E0, Hfm in Hfy; destruct Hfy; discriminate).
+      rewrite (Hfl y Hne). split; [|exact Hfy]. apply (Permutation_in _ Hperm) in Hy. destruct Hy as [<-|Hy]; [congruence|exact Hy]. }
+  assert (HDm3 : forall i, Dm f3 (pend w3) (allprocs (k_lps w3)) i <-> Dm (k_flags w) (pend w) (allprocs (k_lps w)) i).
+  { intros i. unfold Dm. change (pend w3) with (pend w1). change (k_lps w3) with (k_lps w1). rewrite El. split.
+    - intros (y & Ey & H). destruct (Pos.eq_dec (wm_id y) (wm_id m)) as [E|E].
+      + exists m. split; [rewrite <- Ey; symmetry; exact E|right; split; [exact Hmpr|left; exact Hfm]].
+      + exists y. split; [exact Ey|]. rewrite (Hfl y E) in H. destruct H as [[Hy Hfy]|H]; [left; split; [apply (Permutation_in _ (Permutation_sym Hperm)); right; exact Hy|exact Hfy]|right; exact H].
+    - intros (y & Ey & H). destruct (Pos.eq_dec (wm_id y) (wm_id m)) as [E|E].
+      + exists m. split; [rewrite <- Ey; symmetry; exact E|right; split; [exact Hmpr|right; exact Hf3m]].
+      + exists y. split; [exact Ey|]. rewrite (Hfl y E). destruct H as [[Hy Hfy]|H]; [left; split; [|exact Hfy]|right; exact H].
+        apply (Permutation_in _ Hperm) in Hy. destruct Hy as [<-|Hy]; [congruence|exact Hy]. }
+  assert (Hmm_ne : forall o, In o mm -> wm_id o <> wm_id m).
+  { intros o Ho E. apply Hnmk. rewrite <- (Hid o) by (rewrite ?in_app_iff; try (right; right; apply in_allmarks_iff; exists l; split; [rewrite Hlen; exact Hdl|]; rewrite <- Ex, Ehist; apply in_marks; rewrite marks_flat, flat_map_app; apply in_or_app; right; cbn [flat_map fst]; apply in_or_app; left; exact Ho); exact E).
+    apply in_allmarks_iff. exists l. split; [rewrite Hlen; exact Hdl|]. rewrite <- Ex, Ehist. apply in_marks. rewrite marks_flat, flat_map_app. apply in_or_app. right. cbn [flat_map fst]. apply in_or_app. left. exact Ho. }
+  constructor; cbn [Abs.hist Abs.pool Abs.antis Abs.nid].
+  - exact F'.
+  - unfold w'. cbn [put_lp set_lps k_lps]. rewrite set_nth_length, Q5. change (k_lps w3) with (k_lps w1). rewrite El. exact Hlen.
+  - change (k_gvt w') with (k_gvt w4). rewrite Q7. change (k_gvt w3) with (k_gvt w1). rewrite Eg. exact Hg.
+  - split; [change (k_epoch w') with (k_epoch w4); rewrite Q8; change (k_epoch w3) with (k_epoch w1); rewrite Ee; exact He0|]. intros i Hi. destruct (Nat.eq_dec i l) as [->|Hne].
+    + unfold w'. rewrite (get_lp_set w4 l _ Hl4), fix_bound_epoch, Q4. fold x. rewrite Ex. apply Hel. exact Hi.
+    + rewrite (Hget i Hne). apply Hel. exact Hi.
+  - unfold w'. rewrite Emm. exact Q12.
+  - unfold w'. rewrite Epp. change (k_flags (put_lp w4 _ _)) with (k_flags w4). apply Q13. intros y Hy.
+    assert (Hyw : In y (allprocs (k_lps w)) /\ wm_id y <> wm_id m).
+    { apply in_allprocs_iff in Hy. destruct Hy as (i & Hi & H). rewrite Q5 in Hi. change (k_lps w3) with (k_lps w1) in Hi. rewrite El in Hi.
+      destruct (Nat.eq_dec i l) as [->|Hne].
+      - rewrite Q1 in H. apply in_procs in H. rewrite procs_flat in H. cbn [map] in H. destruct H as [<-|H].
+        + split; [apply in_allprocs_iff; exists l; split; [exact Hi|]; rewrite <- Ex, Ehist; apply in_procs; rewrite procs_flat; cbn [map app]; left; reflexivity|].
+          intro E. unfold tyok in Hty. unfold is_init in Einit. assert (im = m) by (apply (Hid im); [rewrite !in_app_iff; right; left; apply in_allprocs_iff; exists l; split; [exact Hi|]; rewrite <- Ex, Ehist; apply in_procs; rewrite procs_flat; cbn [map app]; left; reflexivity|exact E]).
+          subst im. rewrite Einit in Hty. exact (N.lt_irrefl _ Hty).
+        + apply in_map_iff in H. destruct H as (g & <- & Hgg). split; [apply Hpin; apply in_or_app; left; exact Hgg|apply HnotIn; apply in_or_app; left; exact Hgg].
+      - rewrite (Q2 i Hne) in H. assert (Hyw : In y (allprocs (k_lps w))) by (apply in_allprocs_iff; exists i; split; [exact Hi|]; unfold get_lp in *; change (k_lps w3) with (k_lps w1) in H; rewrite El in H; exact H).
+        split; [exact Hyw|]. intro E. rewrite (Hid y ltac:(rewrite !in_app_iff; tauto) E) in H.
+        destruct (Hxl i Hi) as (_ & _ & Hd & _). unfold get_lp in H. change (k_lps w3) with (k_lps w1) in H. rewrite El in H. specialize (Hd m H). fold l in Hd. congruence. }
+    apply N53; tauto.
+  - eapply Bridge.rs; [exact Hre|exact Hstep].
+  - intros i Hi. destruct (Nat.eq_dec i l) as [->|Hne].
+    + exists ms, im, gk. unfold w'. rewrite (get_lp_set w4 l _ Hl4), fix_bound_hist, fix_bound_base, Q1, Q3. split; [reflexivity|]. split; [exact Einit|]. split; [exact Ebase|].
+      unfold Abs.upd. rewrite Nat.eqb_refl. reflexivity.
+    + destruct (Hh i Hi) as (ms' & im' & gs' & E1 & E2 & E3 & E4). exists ms', im', gs'. rewrite (Hget i Hne). split; [exact E1|]. split; [exact E2|]. split; [exact E3|].
+      unfold Abs.upd. destruct (Nat.eqb_spec i l); [contradiction|exact E4].
+  - intros x0. rewrite in_app_iff, Hp. change (pend w') with (pend w4). change (k_flags w') with (k_flags w4). split.
+    + intros [(y & Hy & ->)|H].
+      * exists y. split; [|reflexivity]. apply Q10. left. apply HLive3. exact Hy.
+      * rewrite map_map in H. apply in_map_iff in H. destruct H as (g & <- & Hgg). exists (snd g). split; [|reflexivity]. apply Q10. right. apply in_map. exact Hgg.
+    + intros (y & Hy & ->). apply Q10 in Hy. destruct Hy as [Hy|Hy]; [left; exists y; split; [apply HLive3; exact Hy|reflexivity]|].
+      right. rewrite map_map. apply in_map_iff in Hy. destruct Hy as (g & <- & Hgg). apply in_map_iff. exists g. split; [reflexivity|exact Hgg].
+  - intros i. rewrite in_app_iff, (remove_id_in_iff _ _ _ (Abs.i_nd_antis cont n init0 a I)), Ha. unfold w'. rewrite Epp.
+    change (pend (put_lp w4 _ _)) with (pend w4). change (k_flags (put_lp w4 _ _)) with (k_flags w4). cbn [ent Abs.em snd amsg Abs.mid]. split.
+    + intros [[(j0 & Hj & ->) Hne]|H].
+      * exists j0. split; [|reflexivity]. apply Q11. left. split; [left; apply HDm3; exact Hj|]. intro E. apply Hne. rewrite E. reflexivity.
+      * unfold Abs.ids_of in H. cbn [flat_map ent Abs.eouts fst] in H. rewrite map_app in H. apply in_app_or in H. destruct H as [H|H].
+        -- rewrite map_map in H. apply in_map_iff in H. destruct H as (o & <- & Ho). exists (wm_id o). split; [|reflexivity]. apply Q11. left. split; [right; apply in_map; exact Ho|apply Hmm_ne; exact Ho].
+        -- apply in_map_iff in H. destruct H as (x1 & <- & Hx). apply in_flat_map in Hx. destruct Hx as (e & He & Hx). apply in_map_iff in He. destruct He as (g & <- & Hgg).
+           cbn [ent Abs.eouts] in Hx. apply in_map_iff in Hx. destruct Hx as (o & <- & Ho). exists (wm_id o). split; [|reflexivity]. apply Q11. right. apply in_map. apply in_flat_map. exists g. split; assumption.
+    + intros (j0 & Hj & ->). apply Q11 in Hj. destruct Hj as [[[Hj|Hj] Hne]|Hj].
+      * left. split; [exists j0; split; [apply HDm3; exact Hj|reflexivity]|]. intro E. apply Hne. apply Pos2Nat.inj. exact E.
+      * right. unfold Abs.ids_of. cbn [flat_map ent Abs.eouts fst]. rewrite map_app. apply in_or_app. left. rewrite map_map. apply in_map_iff in Hj. destruct Hj as (o & <- & Ho). apply in_map_iff. exists o. split; [reflexivity|exact Ho].
+      * right. unfold Abs.ids_of. cbn [flat_map ent Abs.eouts fst]. rewrite map_app. apply in_or_app. right. apply in_map_iff in Hj. destruct Hj as (o & <- & Ho). apply in_flat_map in Ho. destruct Ho as (g & Hgg & Ho).
+        apply in_map_iff. exists (amsg o). split; [reflexivity|]. apply in_flat_map. exists (ent g). split; [apply in_map; exact Hgg|cbn [ent Abs.eouts]; apply in_map; exact Ho].
+  - change (k_next w') with (k_next w4). rewrite Q6. change (k_next w3) with (k_next w1). rewrite En. exact Hn.
 Qed.
 End Sim.
